@@ -1,4 +1,6 @@
 from runner import Harness, FUNC
+
+RV = FUNC + ["-Z", "restrict-vtable"]
 from . import Plan, register, COMMON_TRUSTED
 
 STUBS = ["std::arch::x86_64::_mm_shuffle_epi8 -> c15::shuf::mm_shuffle_epi8 (Rust model)", "std::arch::x86_64::_mm256_shuffle_epi8 -> c15::shuf::mm256_shuffle_epi8 (Rust model)",
@@ -13,7 +15,7 @@ def plan(ctx):
                           f"feature subset {what}: DefaultEngine::new() executes no SIMD entry point; mul, fft, ifft and DefaultEngine::eval_poly each execute exactly the best reported ISA (trace of #[target_feature] entry points == {{best(mask)}}, empty for the empty mask) and produce the same bytes as NoSimd on fully symbolic blocks; eval_poly reaches utils::eval_poly once with unchanged arguments",
                           encodes=["DefaultEngine::new", "DefaultEngine::{fft,ifft,mul,eval_poly}", "Avx2/Ssse3/NoSimd::new (LazyLock tables through providers)", "Avx2::*_avx2, Ssse3::*_ssse3 entry points", "engine_default.rs feature-mask macro"],
                           bounds="one mask per harness (all 4 subsets enumerated); one-block shards; fft/ifft size 2; log_m = 4369; symbolic truncated_size for eval_poly; unwind 128",
-                          timeout=2400, mem_gb=12, stubs=STUBS, symbolic="3 x 64 block bytes, truncated_size"))
+                          timeout=2400, mem_gb=12, stubs=STUBS, flags=RV, symbolic="3 x 64 block bytes, truncated_size"))
     hs.append(Harness("c14::eval_poly_delegation_h", "C14",
                       "Avx2/Ssse3/NoSimd/Naive::eval_poly each reach utils::eval_poly exactly once with the caller's buffer and truncated_size; SIMD ones record their ISA, portable ones none",
                       encodes=["Avx2::eval_poly_avx2", "Ssse3::eval_poly_ssse3", "Engine::eval_poly (provided)"], bounds="symbolic truncated_size", timeout=1200, mem_gb=8,
